@@ -5,6 +5,7 @@ import (
 	"go/ast"
 	"go/token"
 	"go/types"
+	"os"
 	"strings"
 
 	"golang.org/x/tools/go/packages"
@@ -717,5 +718,53 @@ func ruleBisectStep(c *Ctx) {
 	})
 	if found < 1 {
 		anchorFail("bisect.step: no bisection loop of the form `for lo+1 < hi { mid = lo + (hi-lo)/2; ... }` found (ClosestToSlot)")
+	}
+}
+
+// ---------------------------------------------------------------------------------------------------------------
+
+func divisorSites(p *Prog, f func(pk *packages.Package, fd *ast.FuncDecl, be ast.Node, div ast.Expr)) {
+	p.funcDecls(func(pk *packages.Package, fd *ast.FuncDecl) {
+		if fd.Body == nil || !strings.Contains(pk.PkgPath, "/eth2/") {
+			return
+		}
+		info := pk.TypesInfo
+		ast.Inspect(fd.Body, func(n ast.Node) bool {
+			switch x := n.(type) {
+			case *ast.BinaryExpr:
+				if x.Op != token.QUO && x.Op != token.REM {
+					return true
+				}
+				if tv, ok := info.Types[x.Y]; ok && tv.Value != nil {
+					return true
+				}
+				if b, ok := info.TypeOf(x.Y).Underlying().(*types.Basic); !ok || b.Info()&types.IsInteger == 0 {
+					return true
+				}
+				f(pk, fd, x, x.Y)
+			case *ast.AssignStmt:
+				if (x.Tok == token.QUO_ASSIGN || x.Tok == token.REM_ASSIGN) && len(x.Rhs) == 1 {
+					if tv, ok := info.Types[x.Rhs[0]]; ok && tv.Value != nil {
+						return true
+					}
+					f(pk, fd, x, x.Rhs[0])
+				}
+			}
+			return true
+		})
+	})
+}
+
+func init() {
+	if len(os.Args) > 1 && os.Args[1] == "divs" {
+		p, err := load(loadOpts{repo: "/repo"})
+		if err != nil {
+			fmt.Println(err)
+			os.Exit(2)
+		}
+		divisorSites(p, func(pk *packages.Package, fd *ast.FuncDecl, n ast.Node, div ast.Expr) {
+			fmt.Printf("%s.%s | %s | %s\n", pkgShort(pk.Types), funcName(fd), types.ExprString(div), p.rel(n.Pos()))
+		})
+		os.Exit(0)
 	}
 }
